@@ -183,6 +183,30 @@ def compare(ref_occ, cur_occ, limit=100000, ambiguous=(), ref_keys=None, cur_key
     incomparable."""
     if json.dumps(ref_occ, sort_keys=True) == json.dumps(cur_occ, sort_keys=True):
         return 'ok', ''
+    # one expression tested for truth in one tree and against None in the other is one
+    # three-valued variable (`if d.get(k):` against `if d.get(k) is not None:`)
+    tv_texts = {v[1] for v in list(_all_vars(ref_occ)) + list(_all_vars(cur_occ)) if v[0] == 'tv'}
+    at_texts = {v[1] for v in list(_all_vars(ref_occ)) + list(_all_vars(cur_occ))
+                if v[0] == 'atom'}
+    if tv_texts & at_texts:
+        both = tv_texts & at_texts
+
+        def conv(t):
+            if t[0] == 'leaf':
+                a = t[1]
+                if a[0] == 'atom' and a[1] in both:
+                    pos = ['leaf', ['tv', a[1], 'truthy']]
+                    return pos if a[2] else ['not', pos]
+                return t
+            if t[0] in ('and', 'or', 'not'):
+                return [t[0]] + [conv(x) for x in t[1:]]
+            if t[0] == 'memo':
+                return ['memo', conv(t[1])] + list(t[2:])
+            if t[0] == 'rx':
+                return ['rx', t[1], conv(t[2])] + list(t[3:])
+            return t
+        ref_occ = [[conv(t) for t in conj] for conj in ref_occ]
+        cur_occ = [[conv(t) for t in conj] for conj in cur_occ]
     ref_all, cur_all = set(_all_vars(ref_occ)), set(_all_vars(cur_occ))
     # the same subject looked up in another table (`x in self.a` -> `x in self.b`)
     o_r, o_c = ref_all - cur_all, cur_all - ref_all
